@@ -141,6 +141,7 @@ Definition case_obs (c : gcase) : list obs :=
         (70, map (ev_row pt) evs, []) ] ++
       read_obs pt evs s ++
       [ (30, [[match read_events parse wev s with Ok h => b2z (same_graph g h) | _ => 0 end]], []);
+        (31, [[b2z (wf_roundtrip_b (sp g) (get_all_nodes g) (get_all_edges g))]], []);
         (50, [[1; 1]], []) ]   (* the file variant: same bytes, same graph (checked by the harness) *)
     | _ => []
     end
